@@ -216,3 +216,28 @@ def scrape_shift_fast_path(cbuiltins):
             raise RuntimeError("cbuiltins.lua: operators.%s: no width in the fast-path condition: %s" % (name, text[:200]))
         out[name] = all(w in ("lattr.type", "ltype") for w in widths)
     return out
+
+
+def scrape_vardecl_policy(cgenerator):
+    """cgenerator.visitors.VarDecl writes into `emitter` (comes out first) and its fork `defemitter` (appended at
+    the end).  Returns which of the two receives (a) the bare `valnode;` statement of a variable dropped by dead
+    code elimination and (b) the `_asgnret = call;` statement of a trailing multiple-return call:
+    {"dead_in_def": bool, "asgnret_in_def": bool}.  True only if EVERY such statement goes to defemitter.
+    Also checks the facts the model relies on: definitions of kept variables go to defemitter, which is appended
+    last."""
+    m = re.search(r"function visitors\.VarDecl\(context, node, emitter\)(.*?)\nend\n", cgenerator, re.S)
+    if not m:
+        raise RuntimeError("cgenerator.lua: visitors.VarDecl not found")
+    body = m.group(1)
+    if not re.search(r"local defemitter = emitter:fork\(\)", body) or not re.search(r"\n  emitter:add\(defemitter\)\s*$", body):
+        raise RuntimeError("cgenerator.lua: VarDecl no longer forks `defemitter` and appends it last; coq/C09/VarDecl.v must be revisited")
+    if not re.search(r"defemitter:add_converted_val\(vartype, asgnvalname, asgnvaltype\)", body):
+        raise RuntimeError("cgenerator.lua: VarDecl: definitions of kept variables are no longer added to defemitter")
+    dead = re.findall(r"(\w+):add_indent_ln\(valnode, ';'\)", body)
+    asg = re.findall(r"(\w+):add_indent_ln\(rettypename, ' ', multiretvalname, ' = ', valnode, ';'\)", body)
+    if not dead or len(asg) != 1:
+        raise RuntimeError("cgenerator.lua: VarDecl: statements for dropped initializers / _asgnret not found (%r, %r)" % (dead, asg))
+    for w in dead + asg:
+        if w not in ("emitter", "defemitter"):
+            raise RuntimeError("cgenerator.lua: VarDecl: unknown emitter %r" % w)
+    return {"dead_in_def": all(w == "defemitter" for w in dead), "asgnret_in_def": asg[0] == "defemitter"}
